@@ -105,6 +105,51 @@ package types
 //@   ensures [hashes-the-encoded-header] mb.count == 1 && mb.arg0 == h && (mb.res1 == nil ==> s2.count == 1 && s2.arg0 == mb.res0) && (mb.res1 != nil ==> r == nil)
 //@   assumes [hash] val(r) == HashHdr(HdrOf(h)) && len(r) == 32
 
+// ---- C12: the binary decoders ----------------------------------------------------------------
+// UnmarshalBinary is protobuf decoding followed by FromProto and nothing else: whatever protobuf
+// decodes (the empty byte string included - it is the encoding of a value without fields) is
+// decoded, and an error comes from one of the two steps only. (Explored inline at call sites.)
+//@ func (m *Metadata) UnmarshalBinary(metadata) (err)
+//@   property C12 C14 C09
+//@   inline
+//@   observe um := call Unmarshal
+//@   observe fp := call FromProto
+//@   modifies m.*
+//@   ensures [decodes-what-protobuf-decodes] um.count == 1 && um.arg0 == metadata && (err != nil ==> um.res0 != nil || (fp && fp.res0 != nil)) && (um.res0 == nil ==> fp.count == 1)
+
+//@ func (h *Header) UnmarshalBinary(data) (err)
+//@   property C12 C14 C09
+//@   inline
+//@   observe um := call Unmarshal
+//@   observe fp := call FromProto
+//@   modifies h.*
+//@   ensures [decodes-what-protobuf-decodes] um.count == 1 && um.arg0 == data && (err != nil ==> um.res0 != nil || (fp && fp.res0 != nil)) && (um.res0 == nil ==> fp.count == 1)
+
+//@ func (d *Data) UnmarshalBinary(data) (err)
+//@   property C12 C14 C09
+//@   inline
+//@   observe um := call Unmarshal
+//@   observe fp := call FromProto
+//@   modifies d.*, heap "types.Metadata.ChainID", heap "types.Metadata.Height", heap "types.Metadata.Time", heap "types.Metadata.LastDataHash"
+//@   ensures [decodes-what-protobuf-decodes] um.count == 1 && um.arg0 == data && (err != nil ==> um.res0 != nil || (fp && fp.res0 != nil)) && (um.res0 == nil ==> fp.count == 1)
+
+//@ func (sh *SignedHeader) UnmarshalBinary(data) (err)
+//@   property C12 C14 C09
+//@   inline
+//@   observe um := call Unmarshal
+//@   observe fp := call FromProto
+//@   modifies sh.*
+//@   ensures [decodes-what-protobuf-decodes] um.count == 1 && um.arg0 == data && (err != nil ==> um.res0 != nil || (fp && fp.res0 != nil)) && (um.res0 == nil ==> fp.count == 1)
+
+//@ func (sd *SignedData) UnmarshalBinary(data) (err)
+//@   property C12 C14 C09
+//@   inline
+//@   observe um := call Unmarshal
+//@   observe fp := call FromProto
+//@   modifies sd.*, heap "types.Metadata.ChainID", heap "types.Metadata.Height", heap "types.Metadata.Time", heap "types.Metadata.LastDataHash"
+//@   ensures [decodes-what-protobuf-decodes] um.count == 1 && um.arg0 == data && (err != nil ==> um.res0 != nil || (fp && fp.res0 != nil)) && (um.res0 == nil ==> fp.count == 1)
+
+
 // ---- C03: who signed it -------------------------------------------------------------------
 
 // the address of a key is sha256 of its raw bytes
